@@ -162,6 +162,17 @@ def fam_add(bits):
             # small physical scale: the absolute rounding of `+` is large relative to the mesh
             s = 2.0 ** -int(rng.integers(12, 28))
             parts = [St(type(p_.mesh)(np.asarray(p_.mesh.p) * s, np.asarray(p_.mesh.t)), kind, 1) for p_ in parts]
+        if bits is not None and (k // 6) % 3 == 1:
+            # the same operands far from the origin (2^14..2^24 lattice units along every axis, exactly representable
+            # on the 2^-bits lattice): the merge tolerance of `+` has to follow the size of the joined mesh, not the
+            # magnitude of its coordinates, or distinct neighbouring vertices collapse
+            T = np.array([float(rng.choice([-1.0, 1.0])) * 2.0 ** int(rng.integers(14, 25)) for _ in range(parts[0].dim)])
+            moved = [np.asarray(p_.mesh.p) + T[:, None] for p_ in parts]
+            if all(np.array_equal(q - T[:, None], np.asarray(p_.mesh.p)) for q, p_ in zip(moved, parts)):
+                parts = [St(type(p_.mesh)(q, np.asarray(p_.mesh.t)), kind, 1) for q, p_ in zip(moved, parts)]
+                ctx.reached("add-far-from-origin")
+            else:
+                ctx.drop("far-translation-not-exact")
         if k % 5 == 4 and all(p_.nt <= 150 for p_ in parts):
             # every cell owns its vertices (>= 3 coincident copies inside one operand and across operands)
             parts = [O.exploded(rng, p_, tags=False)[0] for p_ in parts]
